@@ -249,7 +249,32 @@ def expand_bus(key, hist, acc):
             acc.violation(sig, core.make_record(PROP, 'bus', sig, trace=list(hist) + [list(evt)],
                                                 expected=exp, observed=got), len(hist))
             continue
-        k2 = (ref.key(), w.impl_key())
+        ik = w.impl_key()
+        if not is_emit and ik is not None:
+            # the registration list the emitter holds against the reference list: when they differ,
+            # some emit must show it (probed here, without silencing) - and the branch is not
+            # extended, otherwise registrations that should have gone accumulate without bound
+            impl_regs = [(e, s, lab) for (e, s, lab, _last) in ik[0]]
+            if impl_regs != [(e, f, lab) for (e, f, lab) in ref.regs]:
+                shown = None
+                if not ref.silenced():
+                    for pev in EVENTS:
+                        for ps in SENDERS + ['none']:
+                            shown = w.apply(('emit', pev, ps, False), ref)
+                            if shown:
+                                break
+                        if shown:
+                            break
+                if shown:
+                    what, exp, got = shown
+                    sig = '%s/bus/%s/audible/registrations-differ,%s' % (PROP, evt[0], what)
+                    acc.violation(sig, core.make_record(
+                        PROP, 'bus', sig, trace=list(hist) + [list(evt), ['emit', pev, ps, False]],
+                        expected=exp, observed=got), len(hist) + 1)
+                else:
+                    acc.extra['bus_branches_cut_registrations_differ_unobserved'] += 1
+                continue
+        k2 = (ref.key(), ik)
         succ.append((k2, list(hist) + [list(evt)]))
     if len(hist) == 3 and hash(key) % 50 == 0:
         acc.sample({'bus_history': hist})
